@@ -363,10 +363,16 @@ func runBatch(t *testing.T, w World, env Env) *WorkerResult {
 		}
 		// determinism re-check on a sample of seeds
 		if res.Runs%50 == 1 {
+			simrt.SchedLog = os.Getenv("VERIF_SCHEDLOG") != ""
+			if simrt.SchedLog {
+				o = runGuard(t, w, simrt.NewTape(seed), env)
+			}
 			o2 := runGuard(t, w, simrt.NewTape(seed), env)
+			simrt.SchedLog = false
 			res.Recheck++
 			if o2.Digest() != o.Digest() {
-				res.HarnessErr = fmt.Sprintf("NONDETERMINISM: seed %d gave digests %s and %s in the same process", seed, o.Digest(), o2.Digest())
+				res.HarnessErr = fmt.Sprintf("NONDETERMINISM: seed %d gave digests %s and %s in the same process (events %d/%d stuck %v/%v steps %d/%d yields %d/%d switches %d/%d fp %x/%x stucktasks %v/%v)", seed, o.Digest(), o2.Digest(),
+					len(o.Events), len(o2.Events), o.Stuck, o2.Stuck, o.Steps, o2.Steps, o.Yields, o2.Yields, o.Switches, o2.Switches, o.Fingerprint, o2.Fingerprint, o.StuckTasks, o2.StuckTasks)
 				dumpDiff(o, o2)
 				break
 			}
@@ -411,6 +417,18 @@ func sampleOf(seed uint64, o *simrt.Outcome, n int, comment string) Sample {
 }
 
 func dumpDiff(a, b *simrt.Outcome) {
+	for i := 0; i < len(a.Sched) && i < len(b.Sched); i++ {
+		if a.Sched[i] != b.Sched[i] {
+			lo := i - 6
+			if lo < 0 {
+				lo = 0
+			}
+			for j := lo; j <= i+2 && j < len(a.Sched) && j < len(b.Sched); j++ {
+				fmt.Fprintf(os.Stderr, "  SA %s\n  SB %s\n", a.Sched[j], b.Sched[j])
+			}
+			break
+		}
+	}
 	n := len(a.Events)
 	if len(b.Events) < n {
 		n = len(b.Events)
